@@ -349,6 +349,64 @@ def starCollapse (r : RangeAst) : Bool :=
   let keep := (r.map comparatorSet).filter (fun s => !isNullAlt s)
   r.length > 1 && keep.length > 1 && keep.any isStarSet
 
+/-- A full three-number operand with a prerelease tag. -/
+def fullTagged (p : Partial) : Bool := !p.isPartial && !p.pre.isEmpty
+
+/-- The tagged operands that can be the upper bound of the alternative's span (`true` = excluded). -/
+def altUppers : Alt → List (Partial × Bool)
+  | .hyphen _ hi => if fullTagged hi then [(hi, false)] else []
+  | .comps cs => cs.filterMap fun c =>
+      if fullTagged c.p then
+        match c.op with
+        | .lt => some (c.p, true)
+        | .le | .eq | .none => some (c.p, false)
+        | _ => none
+      else none
+
+/-- The tagged operands that can be the lower bound of the alternative's span (`true` = excluded). -/
+def altLowers : Alt → List (Partial × Bool)
+  | .hyphen lo _ => if fullTagged lo then [(lo, false)] else []
+  | .comps cs => cs.filterMap fun c =>
+      if fullTagged c.p then
+        match c.op with
+        | .gt => some (c.p, true)
+        | .ge | .caret | .tilde | .eq | .none => some (c.p, false)
+        | _ => none
+      else none
+
+/-- The prerelease tags the lower bound of the alternative's span may carry: those of its tagged
+lower-bound operands, and `0` (the library's minimum version `0.0.0-0`) when no comparator sets a
+lower bound (only `<`, `<=` and `*` operands). -/
+def altLowerTags : Alt → List (List Ident)
+  | .hyphen lo _ => if lo.isX 0 then [zeroPre] else [lo.pre]
+  | .comps cs =>
+    (if cs.all (fun c => c.op == .lt || c.op == .le || c.p.isX 0) then [zeroPre] else []) ++
+      (altLowers (.comps cs)).map (·.1.pre)
+
+/-- The prerelease tags the upper bound of the alternative's span may carry: those of its tagged
+upper-bound operands, and of `~` operands (the upper bound of `~M.m.p-pre` keeps the tag). -/
+def altUpperTags : Alt → List (List Ident)
+  | .hyphen _ hi => [hi.pre]
+  | .comps cs => ((altUppers (.comps cs)).map (·.1.pre)) ++
+      cs.filterMap fun c => if c.op == .tilde && fullTagged c.p then some c.p.pre else none
+
+/-- The spans of alternatives `a` and `b` meet at a tagged operand `T` with the candidate's numbers:
+`T` is an upper-bound operand of `a` and (same numbers, same tag) a lower-bound operand of `b`, not
+excluded on both sides, and the tags of `a`'s lower and of `b`'s upper bound can equal `T`'s — the
+situation in which `canon` merges the two spans into one that no longer has `T` as a bound. -/
+def meetAt (v : SemVerAst) (a b : Alt) : Bool :=
+  (altUppers a).any fun (t, oa) => (altLowers b).any fun (t', ob) =>
+    t.nums == t'.nums && t.pre == t'.pre && !(oa && ob) &&
+    t.nums == [.n v.major, .n v.minor, .n v.patch] &&
+    (altLowerTags a).contains t.pre && (altUpperTags b).contains t.pre
+
+def pairsAny (f : Alt → Alt → Bool) : List Alt → Bool
+  | [] => false
+  | a :: rest => rest.any (fun b => f a b || f b a) || pairsAny f rest
+
+/-- The candidate is a prerelease and two `||` alternatives meet at a tagged operand with its numbers. -/
+def orMergePre (r : RangeAst) (v : SemVerAst) : Bool := !v.pre.isEmpty && pairsAny (meetAt v) r
+
 /-- The finding classes an (npm range, candidate) pair falls in, by id. -/
 def classes (r : RangeAst) (v : SemVerAst) : List String :=
   (if pre000 v then (if lt0pre r then ["F-C03-lt0pre"] else ["F-C03-pre000"]) else []) ++
@@ -358,7 +416,8 @@ def classes (r : RangeAst) (v : SemVerAst) : List String :=
   (if hyphenBelow r false then ["F-C03-hyphen-inverted"] else []) ++
   (if ltMidWild r then ["F-C03-lt-midwild"] else []) ++
   (if ltPartialPre r v then ["F-C03-lt-partial-pre"] else []) ++
-  (if starCollapse r && !v.pre.isEmpty then ["F-C03-star-collapse"] else [])
+  (if starCollapse r && !v.pre.isEmpty then ["F-C03-star-collapse"] else []) ++
+  (if orMergePre r v then ["F-C03-or-merge-pre"] else [])
 
 end NpmRange
 
